@@ -394,11 +394,21 @@ class List(list, base.Symbolic, pg_typing.CustomTyping):
       if isinstance(item, base.TopologyAware):
         item.sym_setpath(utils.KeyPath(idx, new_path))
 
+  def _sync_children_paths(self, start: int = 0) -> None:
+    """Make the paths of children from `start` agree with their positions."""
+    for idx in range(start, len(self)):
+      item = list.__getitem__(self, idx)
+      if isinstance(item, base.TopologyAware) and item.sym_path.key != idx:
+        item.sym_setpath(utils.KeyPath(idx, self.sym_path))
+
   def _set_item_without_permission_check(  # pytype: disable=signature-mismatch  # overriding-parameter-type-checks
       self, key: int, value: Any) -> Optional[base.FieldUpdate]:
     """Set or add an item without permission check."""
     assert isinstance(key, numbers.Integral), key
     index = key
+    # Normalize negative index, so the child's path reflects its position.
+    if -len(self) <= index < 0:
+      index += len(self)
     if index >= len(self):
       # Appending MISSING_VALUE is considered no-op.
       if value == pg_typing.MISSING_VALUE:
@@ -408,6 +418,8 @@ class List(list, base.Symbolic, pg_typing.CustomTyping):
     if isinstance(value, Insertion):
       should_insert = True
       value = value.value
+      # Same as `list.insert`: an index before the head inserts at the head.
+      index = max(index, 0)
 
     old_value = pg_typing.MISSING_VALUE
     # Replace an existing value.
@@ -421,6 +433,8 @@ class List(list, base.Symbolic, pg_typing.CustomTyping):
     if index < len(self):
       if should_insert:
         list.insert(self, index, new_value)
+        # The items after the insertion point are shifted.
+        self._sync_children_paths(index + 1)
       else:
         list.__setitem__(self, index, new_value)
         # Detach old value from object tree.
@@ -602,6 +616,9 @@ class List(list, base.Symbolic, pg_typing.CustomTyping):
     if isinstance(old_value, base.TopologyAware):
       old_value.sym_setparent(None)
 
+    # The items after the deleted one are shifted.
+    self._sync_children_paths(index if index >= 0 else index + len(self) + 1)
+
     if flags.is_change_notification_enabled():
       self._notify_field_updates([
           base.FieldUpdate(
@@ -730,12 +747,14 @@ class List(list, base.Symbolic, pg_typing.CustomTyping):
     if base.treats_as_sealed(self):
       raise base.WritePermissionError('Cannot sort a sealed List.')
     super().sort(key=key, reverse=reverse)
+    self._sync_children_paths()
 
   def reverse(self) -> None:
     """Reverse the elements of the list in place."""
     if base.treats_as_sealed(self):
       raise base.WritePermissionError('Cannot reverse a sealed List.')
     super().reverse()
+    self._sync_children_paths()
 
   def custom_apply(
       self,
